@@ -31,7 +31,7 @@ REQUIRED_MONITORS = ["call:frozen_orientation_is_reference", "call:unfrozen_orie
 def plan(tier):
     if tier == "quick":
         return [{"mode": "jit", "timeout": 900}] * 6
-    return [{"mode": "jit", "timeout": 3400}] * 15 + [{"mode": "bounds", "timeout": 3400}]
+    return [{"mode": "jit", "timeout": 3400}] * 14 + [{"mode": "bounds", "timeout": 3400}, {"mode": "suite", "timeout": 3500}]
 
 
 def gen_cases(ctx):
@@ -188,6 +188,10 @@ def _history(ctx, pydrex, case):
 
 
 def run(ctx):
+    if ctx.mode == "suite":
+        from .. import suite
+
+        return suite.run_suite_shard(ctx, "C09")
     bootstrap.import_pydrex()
     for case in gen_cases(ctx):
         check_case(ctx, case)
